@@ -162,6 +162,56 @@ def strip_inner_attrs(src: Source, lo: int, hi: int) -> List[Tuple[int, int]]:
     return drops
 
 
+CFG_FEATURE = re.compile(r'#\s*\[\s*cfg\s*\(\s*(not\s*\(\s*)?feature\s*=\s*"([^"]+)"\s*\)?\s*\)\s*\]$')
+
+
+def cfg_in_parens_edits(src: "Source", lo: int, hi: int, features) -> List[Tuple[int, int, str]]:
+    """T10: `#[cfg(feature = "..")]` on a fn parameter or call argument is evaluated here (the verus! macro cannot
+    carry attributes on parameters): active -> attribute removed; inactive -> attribute and element removed."""
+    toks = src.toks
+    edits = []
+    stack = []
+    k = lo
+    while k < hi:
+        t = toks[k]
+        if t.kind == "punct" and t.text in "([{":
+            stack.append(t.text)
+        elif t.kind == "punct" and t.text in ")]}":
+            if stack:
+                stack.pop()
+        elif t.kind == "punct" and t.text == "#" and stack and stack[-1] == "(":
+            j = k + 1
+            while toks[j].kind in TRIVIA:
+                j += 1
+            if toks[j].text == "[":
+                e = match_close(toks, j)
+                m = CFG_FEATURE.match(" ".join(text_of(src, k, e + 1).split()))
+                if m:
+                    active = (m.group(2) in features) != bool(m.group(1))
+                    if active:
+                        edits.append((k, e + 1, ""))
+                    else:
+                        # element: up to the next `,` at depth 0 (inclusive) or the closing paren (exclusive)
+                        d = 0
+                        q = e + 1
+                        while q < hi:
+                            tx = toks[q]
+                            if tx.kind == "punct":
+                                if tx.text in "([{":
+                                    q = match_close(toks, q)
+                                elif tx.text == "," :
+                                    q += 1
+                                    break
+                                elif tx.text == ")":
+                                    break
+                            q += 1
+                        edits.append((k, q, ""))
+                    k = e + 1
+                    continue
+        k += 1
+    return edits
+
+
 class Writer:
     def __init__(self):
         self.parts: List[str] = []
@@ -192,9 +242,10 @@ LABEL_RE = re.compile(r"//\s*#([A-Za-z0-9_.\-]+)")
 
 
 class Generator:
-    def __init__(self, repo_root: str, canary: bool = False):
+    def __init__(self, repo_root: str, canary: bool = False, features=()):
         self.root = repo_root
         self.canary = canary
+        self.features = set(features)
         self.units: List[Unit] = []
         self.w = Writer()
         self.dropped: List[str] = []
@@ -567,8 +618,9 @@ class Generator:
         par_close = match_close(toks, par)
         after = [k for k in s if k > par_close]
         edits: List[Tuple[int, int, str]] = []
-        # T2: drop non-cfg attributes on parameters (e.g. #[cfg(..)] are kept)
+        # T2: drop non-cfg attributes on parameters; T10: cfg on parameters / call arguments evaluated here
         edits += [(a, b, "") for a, b in strip_inner_attrs(src, par, par_close)]
+        edits += cfg_in_parens_edits(src, item.kw, item.close, self.features)
         where_k = None
         d = 0
         for k in after:
@@ -734,8 +786,8 @@ class Generator:
         return edits
 
 
-def generate(repo_root: str, tpl: str, out_path: str, canary=False):
-    g = Generator(repo_root, canary=canary)
+def generate(repo_root: str, tpl: str, out_path: str, canary=False, features=()):
+    g = Generator(repo_root, canary=canary, features=features)
     text = g.expand(tpl)
     with open(out_path, "w", encoding="utf-8") as f:
         f.write(text)
